@@ -30,9 +30,11 @@ Profile GetProfile(const std::string& name, bool thorough) {
     // no kills or interrupts: what is recorded is exactly what completed
     p.pm_cmd_fail = 40; p.pm_editor = 0; p.w_manifest_edit = 1; p.pm_tty = 100; p.w_inflate_log = 0;
     p.gen.features &= ~F_REGEN;
+    p.subset_then_touch = true;
   } else if (name == "C01" || name == "C02" || name == "C04") {
     p.pm_cmd_fail = 40; p.pm_interrupt = 60; p.pm_crash = 40; p.pm_editor = 80;
     p.w_manifest_edit = 1; p.pm_tty = 150;
+    p.subset_then_touch = true;
   } else if (name == "C05") {
     p.pm_cmd_fail = 220; p.pm_cmd_signal = 60; p.w_edit = 4; p.pm_io_error = 0;
     p.gen.features &= ~F_REGEN;
@@ -122,6 +124,8 @@ struct Driver {
     return v;
   }
 
+  bool force_targets = false;
+  std::vector<std::string> forced_targets;   // next build only: exactly these targets ({} = the defaults)
   InvPlan MakeBuildPlan() {
     InvPlan p;
     p.stream = ST_INV0 + inv_index++;
@@ -140,6 +144,7 @@ struct Driver {
         if (std::find(p.targets.begin(), p.targets.end(), t) == p.targets.end()) p.targets.push_back(t);
       }
     }
+    if (force_targets) { p.targets = forced_targets; force_targets = false; }
     static const int kJ[] = {1, 2, 3, 4, 8, 0};
     p.j = kJ[H(6)];
     if (prof.small_graph) { p.j = 0; p.targets.clear(); }
@@ -1180,6 +1185,51 @@ struct Driver {
     DoBuild();
   }
 
+  // A restat statement is rebuilt on its own (target subset) after a real edit, then its
+  // source is merely touched and everything is built: the command runs again, leaves its
+  // output alone, and the pruning that follows must not take the statements behind that
+  // output (directly or through aliases) along - they have not seen the rewritten output yet.
+  void DoSubsetThenTouch() {
+    std::vector<int> cands;
+    for (const Stmt& s : w.sc.stmts) {
+      if (!s.alive || s.phony || s.regen || s.ins.empty()) continue;
+      const DyndepEntry* de = w.sc.DyndepFor(s.id);
+      if (!(s.restat || (de && de->restat))) continue;
+      const std::string& src = s.ins[0];
+      if (!w.sc.IsSource(src) || w.sc.FindDyndep(src) || src == "gen.src") continue;
+      cands.push_back(s.id);
+    }
+    if (cands.empty()) { DoEdit(true); return; }
+    // prefer one whose output reaches a command only through a phony alias
+    std::vector<int> via_alias;
+    for (int id : cands) {
+      bool found = false;
+      for (const Stmt& ph : w.sc.stmts) {
+        if (!ph.alive || !ph.phony) continue;
+        bool has = false;
+        for (auto& o : w.sc.stmts[id].AllOuts()) if (std::find(ph.ins.begin(), ph.ins.end(), o) != ph.ins.end() || std::find(ph.imp_ins.begin(), ph.imp_ins.end(), o) != ph.imp_ins.end()) has = true;
+        if (!has) continue;
+        for (const Stmt& c : w.sc.stmts) if (c.alive && !c.phony && (std::find(c.ins.begin(), c.ins.end(), ph.outs[0]) != c.ins.end() || std::find(c.imp_ins.begin(), c.imp_ins.end(), ph.outs[0]) != c.imp_ins.end())) found = true;
+      }
+      if (found) via_alias.push_back(id);
+    }
+    if (!via_alias.empty()) { cands = via_alias; rr.stats.n["subset_then_touch_via_alias"]++; }
+    const Stmt& s = w.sc.stmts[cands[H((uint32_t)cands.size())]];
+    std::string src = s.ins[0];
+    if (w.emptied.count(src)) w.emptied.erase(src);
+    w.version[src]++;
+    w.k.WriteFile(src, w.SourceContent(src), true);
+    Note("edit " + src + " (then build only statement " + std::to_string(s.id) + ")");
+    force_targets = true; forced_targets = {s.outs[0]};
+    DoBuild();
+    if (dead) return;
+    w.k.Touch(src, true);
+    Note("touch " + src + " (then build everything)");
+    force_targets = true; forced_targets.clear();
+    DoBuild();
+    rr.stats.n["subset_then_touch"]++;
+  }
+
   void DoIncludeSwap(const Stmt& s) {
     std::string primary = s.ins[0];
     if (w.emptied.count(primary)) { w.emptied.erase(primary); w.version[primary]++; w.k.WriteFile(primary, w.SourceContent(primary), true); }
@@ -1537,7 +1587,7 @@ struct Driver {
       if (i == 0 && H(8) != 0) { DoBuild(); continue; }
       int ws[] = {prof.w_build, prof.w_edit, prof.w_touch, prof.w_del_out, prof.w_change_cmd, prof.w_change_rsp,
                   prof.w_regen, prof.w_del_log, prof.w_del_depfile, prof.w_clean, prof.w_cleandead, prof.w_tool_ro,
-                  prof.w_dry, prof.w_manifest_edit, prof.w_edit_includes, prof.w_empty_source, prof.w_inflate_log, prof.w_include_churn, prof.w_block_dir, invalid_dyndep_run ? 6 : 0, prof.damage ? 8 : 0};
+                  prof.w_dry, prof.w_manifest_edit, prof.w_edit_includes, prof.w_empty_source, prof.w_inflate_log, prof.w_include_churn, prof.w_block_dir, invalid_dyndep_run ? 6 : 0, prof.damage ? 8 : 0, prof.subset_then_touch ? 3 : 0};
       int total = 0;
       for (int x : ws) total += x;
       int c = (int)H((uint32_t)total), op = 0;
@@ -1564,6 +1614,7 @@ struct Driver {
         case 18: DoBlockDir(); break;
         case 19: DoInvalidDyndep(); break;
         case 20: DoDamage(); break;
+        case 21: DoSubsetThenTouch(); break;
       }
     }
     // histories end with a build so that every change is exercised
